@@ -135,7 +135,8 @@ def token_stubs(cx, engine):
     return [
         (re.compile(P + r"(parse_symbol|parse_symbol_suffix|parse_symbol_scratch_suffix)$"), h_parse_symbol),
         (re.compile(r"^core::str::<impl str>::ends_with::<char>$"), h_ends_with),
-        (re.compile(r"^<String as PartialEq<&str>>::eq$"), h_str_eq),
+        (re.compile(r"^<(?:String as PartialEq<&str>|str as PartialEq|&str as PartialEq<&str>|&str as PartialEq|String as PartialEq<str>)>::eq$"), h_str_eq),
+        (re.compile(r"^(?:String::as_str|<String as Deref>::deref|<String as AsRef<str>>::as_ref|String::as_mut_str)$"), lambda e, st, fr, c, a, mm: a[0]),
         (re.compile(r"^<String as Deref>::deref$"), h_deref),
         (re.compile(r"^String::pop$"), h_pop),
         (re.compile(r"^core::str::<impl str>::(bytes|chars|char_indices)$"), lambda e, st, fr, c, a, m: Opaque("StrIter", "iter", {"of": a[0]})),
@@ -335,6 +336,14 @@ def claim_token_dispatch(cx, res, kf):
                     cond0 = None
             if cond0 is not None:
                 check(t, cond0, "token dispatch: `%s` is entered on a token start / option set it is not documented for" % fname0, None)
+            # a name read "on top of the scratch buffer" is only sound right after the first character of this very token was decoded
+            # into it; anywhere else the buffer holds whatever the previous token left there
+            for i_, e_ in enumerate(firsts):
+                if e_[0] == "name" and e_[1] == "parse_symbol_scratch_suffix":
+                    prev = firsts[i_ - 1] if i_ > 0 else None
+                    if not (prev is not None and prev[0] == "call" and prev[1] == "decode_utf8_sequence"):
+                        check(t, z3.BoolVal(False), "a name is read on top of the scratch buffer without clearing it first (only sound directly "
+                              "after this token's first character was decoded into it): bytes left by an earlier token become part of the name", None)
         # WHICH scanner a token start is handed to is decided before the scanner runs: checked on every path, whatever the
         # scanner then returns (an `invalid number` for `++` is the symptom of the sign being sent down the number path)
         if "sub" not in [e[0] for e in st.events] and "parse_num_literal" in callnames and "parse_radix_literal" not in callnames:
